@@ -275,6 +275,9 @@ func (o *Op) coq() string {
 		return fmt.Sprintf("(Base (OGet %d %s))", o.R, coqBytes("\x00\x00no-such-key"))
 	case "NewListBad", "NewObjectBad":
 		return "(Base (NewListOf (Lit HNil) (-1)))"
+	case "LCallbackPanics":
+		// a view whose callback panics part-way (the caller recovers): nothing was stored anywhere, the call "panics without effect"
+		return fmt.Sprintf("(Base (LGet %d (-1)))", o.R)
 	}
 	if isXOp(o.Name) {
 		return o.xcoq()
@@ -344,6 +347,8 @@ func (o *Op) String() string {
 		return fmt.Sprintf("Set v%d %q (a value of type %T)", o.R, o.K, o.Bad)
 	case "NewListBad", "NewObjectBad":
 		return fmt.Sprintf("%s(a value of type %T)", strings.TrimSuffix(o.Name, "Bad"), o.Bad)
+	case "LCallbackPanics":
+		return fmt.Sprintf("%s v%d with a callback that panics at its call #%d (recovered)", []string{"ForEach", "ForEachValue", "Map", "MapValues", "Filter", "Reduce"}[o.S], o.R, o.I)
 	}
 	if isXOp(o.Name) {
 		return o.xString()
@@ -727,6 +732,30 @@ func (m *Machine) execNow(o *Op) (outcome string) {
 			at.NewList(o.Bad)
 		case "NewObjectBad":
 			at.NewObject("k", o.Bad)
+		case "LCallbackPanics":
+			l := m.list(o.R)
+			k := int(o.I)
+			cnt := 0
+			hit := func() {
+				if cnt == k {
+					panic("the callback panics")
+				}
+				cnt++
+			}
+			switch o.S {
+			case 0:
+				l.ForEach(func(int, any) { hit() })
+			case 1:
+				l.ForEachValue(func(any) { hit() })
+			case 2:
+				l.Map(func(_ int, x any) any { hit(); return x })
+			case 3:
+				l.MapValues(func(x any) any { hit(); return x })
+			case 4:
+				l.Filter(func(any) bool { hit(); return true })
+			default:
+				l.Reduce(0, func(a any, _ any) any { hit(); return a })
+			}
 		default:
 			xout, result, hasResult = m.execX(o)
 		}
@@ -866,7 +895,7 @@ func xOutcome(oc string) string {
 func singleIndexOp(o *Op) bool {
 	switch o.Name {
 	case "LInsert", "LReplace", "LPop", "LGet", "LGetTyped", "LSubList", "OGet", "OGetTyped", "OPluck", "LSort",
-		"LAddBad", "LInsertBad", "LReplaceBad", "OSetBad", "NewListBad", "NewObjectBad":
+		"LAddBad", "LInsertBad", "LReplaceBad", "OSetBad", "NewListBad", "NewObjectBad", "LCallbackPanics":
 		return true
 	case "LDelete":
 		return len(o.Idxs) == 1
@@ -1087,6 +1116,7 @@ func (p *Prog) listOp(r int) {
 		if n > 0 {
 			t0 := l.TypeOf(0)
 			homog := true
+			posZero, negZero := false, false
 			for i := 0; i < n; i++ {
 				if l.TypeOf(i) != t0 {
 					homog = false
@@ -1094,9 +1124,17 @@ func (p *Prog) listOp(r int) {
 				if f, ok := l.Get(i).(float64); ok && math.IsNaN(f) {
 					homog = false
 				}
+				if f, ok := l.Get(i).(float64); ok && f == 0 {
+					// 0 and -0 compare equal: sort.Float64s may leave them in either order, the canonical hash is bit-exact
+					if math.Signbit(f) {
+						negZero = true
+					} else {
+						posZero = true
+					}
+				}
 			}
 			sortable := t0 == at.TypeString || t0 == at.TypeInt || t0 == at.TypeFloat
-			if (homog && sortable) || !sortable {
+			if (homog && sortable && !(posZero && negZero)) || !sortable {
 				p.do(&Op{Name: "LSort", R: r})
 				return
 			}
@@ -1251,6 +1289,10 @@ func (p *Prog) anyOp(listBias float64) {
 	}
 	if p.r.chance(0.025) {
 		p.rejectedInsertion()
+		return
+	}
+	if p.r.chance(0.025) {
+		p.nativeMutation()
 		return
 	}
 	if len(ls) > 0 && (len(os) == 0 || p.r.chance(listBias)) {
@@ -1661,7 +1703,11 @@ func heapProgramBody(p *Prog, r *R, prof string) {
 				case 6:
 					p.do(&Op{Name: "LReverse", R: rr})
 				default:
-					p.do(&Op{Name: "LClear", R: rr})
+					if n > 0 && r.chance(0.5) {
+						p.doNative("LReplace", rr, int64(r.Intn(n)), "")
+					} else {
+						p.do(&Op{Name: "LClear", R: rr})
+					}
 				}
 			} else {
 				p.objOp(pickOf(r, os))
@@ -2128,12 +2174,55 @@ func emitProg(p *Prog, out *Out, chk string) {
 	out.emit(c)
 }
 
+// C10 with a derived list that overrides its getters somewhere in the tree (implementation only: the model knows no overrides):
+// for every path that step-by-step navigation through the interface methods resolves, GetTF hands back the same value and TypeOfTF its
+// kind; one step further (an index equal to Count) is Undefined / a panic
+func overridingDerivedCase(r *R) *Case {
+	f := &failer{pred: true}
+	if try(func() {
+		inner := &RevList{List: at.NewList(1, "two", at.NewList(30, 31), at.NewObject("k", 4, "l", at.NewList(5, 6)))}
+		inner.Init(inner)
+		mid := &RevList{List: at.NewList("x", inner, at.NewObject("deep", inner))}
+		mid.Init(mid)
+		roots := []any{at.NewObject("r", inner, "m", mid, "plain", at.NewList(0, inner)), at.NewList(mid, 7, inner), inner, mid}
+		kindOf := func(x any) at.Type { return at.Type(kindCodeOf(x)) }
+		for _, root := range roots {
+			var paths []pathInfo
+			allPaths(root, "", &paths, 0)
+			for _, pi := range paths {
+				got, pan := tryVal(func() any { return getTFAny(root, pi.path) })
+				if pan || !sameAny(got, pi.val) {
+					f.fail("with a derived list that overrides Get/GetList/GetObject/TypeOf in the tree, GetTF(%q) differs from step-by-step navigation through the same methods", pi.path)
+					return
+				}
+				var k at.Type
+				switch c := root.(type) {
+				case at.List:
+					k = c.TypeOfTF(pi.path)
+				case at.Object:
+					k = c.TypeOfTF(pi.path)
+				}
+				if k != kindOf(pi.val) {
+					f.fail("with an overriding derived list in the tree, TypeOfTF(%q) = %d but the value step-by-step navigation finds has kind %d", pi.path, k, kindOf(pi.val))
+					return
+				}
+			}
+		}
+	}) {
+		f.fail("tree-form reads panicked on a tree holding a derived list that overrides its getters")
+	}
+	return &Case{Coq: "", Desc: map[string]any{"overriding_derived_list": true}, Pred: f.pred, PredMsg: f.msg, Nontrivial: true, Key: "overriding-derived", Tags: []string{"overriding-derived"}}
+}
+
 func genHeap(prof string) genFunc {
 	return func(r *R, n int, tier string, out *Out) {
 		for i := 0; i < n; i++ {
 			p := heapProgram(r, prof)
 			if prof == "C10" && i == 0 {
 				p = k1Witness(r)
+			}
+			if prof == "C10" && i == 1 {
+				out.emit(overridingDerivedCase(r))
 			}
 			if prof == "C09" && !p.broken {
 				p.viewsOwnStorage()
